@@ -360,7 +360,18 @@ func (fo *Folder) constTable(res *FoldResult, m ssa.Value) (map[string]LV, bool)
 				} else if localFold {
 					kl = fo.operand(r, x.Key)
 				}
-				switch vv := x.Value.(type) {
+				val := x.Value
+				for {
+					// a function stored under a named function type (`map[K]handlerFunc{k: (*T).m}`)
+					if ct, isCT := val.(*ssa.ChangeType); isCT {
+						if _, isSig := ct.X.Type().Underlying().(*types.Signature); isSig {
+							val = ct.X
+							continue
+						}
+					}
+					break
+				}
+				switch vv := val.(type) {
 				case *ssa.Const:
 					vl = constOf(vv)
 				case *ssa.Function:
@@ -447,6 +458,144 @@ func (fo *Folder) constTable(res *FoldResult, m ssa.Value) (map[string]LV, bool)
 	return nil, false
 }
 
+var globalArrayMemo = map[*ssa.Global]map[int64]LV{}
+var globalArrayBad = map[*ssa.Global]bool{}
+
+// globalArray: the constant contents of a package-level array variable: its only write is the package initialiser
+// storing a literal (`var t = [N]T{k: v}`), every other use reads an element or copies the whole array.
+func (fo *Folder) globalArray(g *ssa.Global) (map[int64]LV, bool) {
+	if t, ok := globalArrayMemo[g]; ok {
+		return t, true
+	}
+	if globalArrayBad[g] || g.Pkg != fo.P.Pkg {
+		return nil, false
+	}
+	fail := func() (map[int64]LV, bool) {
+		globalArrayBad[g] = true
+		if os.Getenv("FOLD_DEBUG") != "" {
+			fmt.Println("globalArray fails for", g.Name())
+		}
+		return nil, false
+	}
+	if _, isArr := deref(g.Type()).Underlying().(*types.Array); !isArr {
+		return fail()
+	}
+	out := map[int64]LV{}
+	stores := 0
+	ok := true
+	inPlace := false
+	for _, f := range fo.P.ModFuncs {
+		instrs(f, func(b *ssa.BasicBlock, i int, in ssa.Instruction) {
+			uses := false
+			for _, op := range in.Operands(nil) {
+				if op != nil && *op == ssa.Value(g) {
+					uses = true
+				}
+			}
+			if !uses || !ok {
+				return
+			}
+			switch x := in.(type) {
+			case *ssa.IndexAddr:
+				for _, ref := range *x.Referrers() {
+					switch r := ref.(type) {
+					case *ssa.UnOp:
+						if r.Op != token.MUL {
+							ok = false
+						}
+					case *ssa.DebugRef:
+					case *ssa.Store:
+						// the literal's elements stored in place by the package initialiser
+						k, isK := constIntArg(x.Index)
+						if !isK || r.Addr != ssa.Value(x) || !isInitFn(f) || f.Name() != "init" {
+							ok = false
+							continue
+						}
+						if _, dup := out[k]; dup {
+							ok = false
+							continue
+						}
+						inPlace = true
+						switch vv := r.Val.(type) {
+						case *ssa.Const:
+							out[k] = constOf(vv)
+						case *ssa.Function:
+							out[k] = refLV(vv)
+						default:
+							ok = false
+						}
+					default:
+						ok = false
+					}
+				}
+			case *ssa.UnOp:
+				if x.Op != token.MUL {
+					ok = false
+				}
+			case *ssa.DebugRef:
+			case *ssa.Store:
+				if x.Addr != ssa.Value(g) || !isInitFn(f) {
+					ok = false
+					return
+				}
+				stores++
+				ld, isLd := x.Val.(*ssa.UnOp)
+				if !isLd || ld.Op != token.MUL {
+					ok = false
+					return
+				}
+				al, isAl := ld.X.(*ssa.Alloc)
+				if !isAl {
+					ok = false
+					return
+				}
+				for _, ref := range *al.Referrers() {
+					switch r := ref.(type) {
+					case *ssa.IndexAddr:
+						k, isK := constIntArg(r.Index)
+						if !isK {
+							ok = false
+							continue
+						}
+						for _, r2 := range *r.Referrers() {
+							st, isSt := r2.(*ssa.Store)
+							if !isSt || st.Addr != ssa.Value(r) {
+								ok = false
+								continue
+							}
+							switch vv := st.Val.(type) {
+							case *ssa.Const:
+								out[k] = constOf(vv)
+							case *ssa.Function:
+								out[k] = refLV(vv)
+							default:
+								ok = false
+							}
+						}
+					case *ssa.UnOp:
+						if r != ld {
+							ok = false
+						}
+					case *ssa.DebugRef:
+					default:
+						ok = false
+					}
+				}
+			default:
+				ok = false
+			}
+			if !ok && os.Getenv("FOLD_DEBUG") != "" {
+				fmt.Println("globalArray: use", in, "in", f.Name())
+			}
+		})
+	}
+	if !ok || !(stores == 1 && !inPlace || stores == 0 && inPlace) {
+		return fail()
+	}
+	globalArrayMemo[g] = out
+	return out, true
+}
+
 func zeroLV(t types.Type) LV {
 	if b, ok := t.Underlying().(*types.Basic); ok {
 		switch {
@@ -523,6 +672,27 @@ func (fo *Folder) eval(res *FoldResult, v ssa.Value, depth int) LV {
 		}
 		return binop(x.Op, a.C, b.C, x.X.Type())
 	case *ssa.UnOp:
+		if x.Op == token.MUL {
+			// an element of a package-level array that is written once, as a literal, by the package initialiser
+			if ia, ok := x.X.(*ssa.IndexAddr); ok {
+				if g, ok := ia.X.(*ssa.Global); ok {
+					if tab, ok := fo.globalArray(g); ok {
+						kl := fo.operand(res, ia.Index)
+						if kl.K == lTop {
+							return kl
+						}
+						if kl.K == lConst && kl.C.Kind() == constant.Int {
+							if n, exact := constant.Int64Val(kl.C); exact {
+								if v, hit := tab[n]; hit {
+									return v
+								}
+								return zeroLV(x.Type())
+							}
+						}
+					}
+				}
+			}
+		}
 		a := fo.operand(res, x.X)
 		if x.Op == token.MUL || x.Op == token.ARROW {
 			return bottom
